@@ -26,7 +26,7 @@ TRUSTED = ["harness tools/props/c06.py (spy on the solve call of symeig_torchfcn
 ASSUMPTIONS = ["theorems are proved for real symmetric pencils: the implicit path for a non-degenerate kept column, the dense path for "
                "distinct AND for coinciding eigenvalues (masked degeneracy map, gauge-invariant cotangent), the implicit path also for "
                "coinciding kept eigenvalues given a solution of the shifted systems, and in the complex Hermitian case for one non-degenerate "
-               "column and the dense path (distinct or coinciding eigenvalues); complex degenerate clusters on the implicit path and the numerical behaviour of the singular shifted solve (F30, F39) are "
+               "column, for coinciding kept eigenvalues, and on the dense path; the numerical behaviour of the singular shifted solve (F30, F39) and second order beyond re-applying the derivation are "
                "covered by the correspondence and the oracle only",
                "davidson forward pairs are accurate to min_eps: gradient comparisons for davidson use min_eps=1e-10 and 1e-6 tolerance"]
 HEADER = ("From Coq Require Import List PrimFloat.\nImport ListNotations.\n"
